@@ -592,6 +592,89 @@ pub fn offer_bytes(ctx: &Ctx, bytes: &[u8]) -> &'static str {
 
 use in_toto::interchange::DataInterchange;
 
+/// C17, the link directory as a channel: the BYTES of a genuinely signed link file - as written, padded, with the
+/// replacement character's three bytes exchanged for ill-formed UTF-8, with things before or after the document -
+/// are (a) parsed from the slice and verified against the signer, (b) placed in the link directory of a layout they
+/// satisfy and offered to in_toto_verify.  The file counts exactly when the slice is a validly signed block.
+pub fn linkdir_channel() -> Value {
+    let ctx = Ctx::new();
+    let layout = ctx.good_layout();
+    let link = MetadataWrapper::Link(
+        in_toto::models::LinkMetadataBuilder::new()
+            .name("s1".to_string())
+            .byproducts(in_toto::models::byproducts::ByProducts::new().set_stdout("a \u{fffd} b \u{e9}\u{20ac}\u{1f600}".to_string()).set_stderr(String::new()).set_return_value(0))
+            .build()
+            .unwrap(),
+    );
+    let good = serde_json::to_vec(&Metablock::new(link, &[ctx.km.sk("k1")]).unwrap()).unwrap();
+    let fffd = [0xEFu8, 0xBF, 0xBD];
+    let at = good.windows(3).position(|w| w == fffd).expect("the replacement character is in the text");
+    let with = |bytes: &[u8]| -> Vec<u8> {
+        let mut v = good[..at].to_vec();
+        v.extend_from_slice(bytes);
+        v.extend_from_slice(&good[at + 3..]);
+        v
+    };
+    let around = |pre: &[u8], post: &[u8]| -> Vec<u8> {
+        let mut v = pre.to_vec();
+        v.extend_from_slice(&good);
+        v.extend_from_slice(post);
+        v
+    };
+    let variants: Vec<(&str, Vec<u8>)> = vec![
+        ("as_written", good.clone()),
+        ("padded", around(b"\n \t", b" \r\n")),
+        ("lone_latin1_byte", with(&[0xE9])),
+        ("byte_ff", with(&[0xFF])),
+        ("overlong_slash", with(&[0xC0, 0xAF])),
+        ("surrogate", with(&[0xED, 0xA0, 0x80])),
+        ("beyond_10ffff", with(&[0xF4, 0x90, 0x80, 0x80])),
+        ("cut_sequence", with(&[0xEF, 0xBF])),
+        ("continuation_only", with(&[0x80])),
+        ("bom_before", around(&[0xEF, 0xBB, 0xBF], b"")),
+        ("garbage_after", around(b"", b" x")),
+        ("nul_after", around(b"", &[0])),
+        ("form_feed_before", around(&[0x0C], b"")),
+        ("twice", around(b"", &good)),
+        ("invalid_byte_after", around(b"", &[0xFF])),
+        ("cut_short", good[..good.len() - 1].to_vec()),
+    ];
+    let own = ctx.km.idstr("k1")[0..8].to_string();
+    let mut bad = vec![];
+    let mut n = 0;
+    for (name, bytes) in &variants {
+        let a = guarded(|| match serde_json::from_slice::<Metablock>(bytes) {
+            Ok(b) => b.verify(1, [ctx.km.pk("k1")]).is_ok(),
+            Err(_) => false,
+        });
+        let tmp = tempfile::tempdir().unwrap();
+        let root = tmp.path().canonicalize().unwrap();
+        let links = root.join("links");
+        let work = root.join("work");
+        std::fs::create_dir_all(&links).unwrap();
+        std::fs::create_dir_all(&work).unwrap();
+        std::fs::write(links.join(format!("s1.{own}.link")), bytes).unwrap();
+        let mut keys: HashMap<KeyId, PublicKey> = HashMap::new();
+        keys.insert(ctx.km.id("o1"), ctx.km.pk("o1").clone());
+        let old = std::env::current_dir().ok();
+        let _ = std::env::set_current_dir(&work);
+        let b = guarded(|| in_toto::verifylib::in_toto_verify(&layout, keys, links.to_str().unwrap(), None).is_ok());
+        if let Some(o) = old {
+            let _ = std::env::set_current_dir(o);
+        }
+        n += 1;
+        match (&a, &b) {
+            (Ok(x), Ok(y)) if x == y => {}
+            _ => bad.push(json!({"variant": name, "slice_gives_a_valid_block": format!("{:?}", a), "file_counts": format!("{:?}", b)})),
+        }
+    }
+    // vacuity: the file as written must count
+    if guarded(|| serde_json::from_slice::<Metablock>(&variants[0].1).map(|b| b.verify(1, [ctx.km.pk("k1")]).is_ok()).unwrap_or(false)) != Ok(true) {
+        bad.push(json!({"variant": "as_written", "harness": "the genuine file does not verify"}));
+    }
+    json!({"n": n, "bad": bad})
+}
+
 /// seeded byte-level mutation of well-formed documents (bit flips, truncation, splices, duplicated chunks)
 pub fn mutate(n: usize) -> Value {
     let ctx = Ctx::new();
